@@ -34,7 +34,7 @@ def load_seeded():
         meta = json.load(open(mp))
         if not meta.get("caught_by"):
             continue
-        out.append({"id": "seeded:" + name, "prop": meta["property"], "patch": os.path.join(sd, name, "patch.diff"), "expect": meta["caught_by"][0]})
+        out.append({"id": "seeded:" + name, "prop": meta.get("caught_under", meta["property"]), "patch": os.path.join(sd, name, "patch.diff"), "expect": meta["caught_by"][0]})
     return out
 
 
